@@ -252,6 +252,42 @@ def _bad(msg):
     raise NormError(msg)
 
 
+def const_def(prog, module, name, _seen=None):
+    """(defining module, value expr) of a module-level name like _c16c17kit.const_in_module, which follows
+    `from x import name`; in addition a name that reaches the module through `from x import *` of a package module
+    (aiocoap/__init__.py re-exports numbers that way; the program model's import table has no entry for star imports:
+    engine limitation, worked around here) is followed into x."""
+    r = const_in_module(prog, module, name)
+    if r is not None:
+        return r
+    seen = _seen if _seen is not None else set()
+    if (module.name, name) in seen:
+        return None
+    seen.add((module.name, name))
+    nxt = []
+    if name in module.imports:
+        modname, _, nm = prog.canonical(module.imports[name]).rpartition(".")
+        if modname in prog.modules:
+            nxt.append((prog.modules[modname], nm))
+    else:
+        is_pkg = (getattr(module, "path", "") or "").endswith("__init__.py")
+        for st in module.tree.body:
+            if isinstance(st, ast.ImportFrom) and any(a.name == "*" for a in st.names):
+                base = module.name.split(".")
+                if st.level:
+                    base = base[:len(base) - (st.level - (1 if is_pkg else 0))]
+                    target = ".".join(base + ([st.module] if st.module else []))
+                else:
+                    target = st.module or ""
+                if target in prog.modules:
+                    nxt.append((prog.modules[target], name))
+    for m2, nm in nxt:
+        r = const_def(prog, m2, nm, seen)
+        if r is not None:
+            return r
+    return None
+
+
 class EvalRaised(Exception):
     """The evaluated expression itself raises (e.g. int('') -> ValueError)."""
 
@@ -278,7 +314,7 @@ class Evaluator:
             if v is _PENDING:
                 raise NormError("cyclic constant %s" % name)
             return v
-        r = const_in_module(self.prog, module, name)
+        r = const_def(self.prog, module, name)
         if r is None:
             raise NormError("not a constant: %s" % name)
         self._const[k] = _PENDING
@@ -2688,3 +2724,395 @@ def callable_normal_form(prog, module_names):
             ast.fix_missing_locations(tree)
             out[os.path.relpath(m.path, prog.root)] = ast.unparse(tree)
     return out
+
+
+# ---------------------------------------------------------------------------
+# concrete interpreter for small functions with state
+#
+# The Evaluator decides closed *expressions*.  Some facts are about *histories*: "what does the second call return
+# after the first one stored something" (a memo inside a quote function, a table filled lazily).  `Interp` runs the
+# statements of small package functions on the checker's own values: expressions go through a `StatefulEvaluator`
+# (the Evaluator plus in-place methods of the dict / list / set values it created itself, assignment expressions and
+# package functions as values), statements are interpreted here.  Nothing of the analysed repository is executed:
+# every value is built by the checker from syntax, every operation is one of the whitelisted pure builtins / methods.
+# Object identity is what Python's would be: a module-level constant is evaluated once per interpreter (the
+# Evaluator's constant cache), a default argument once per function object, a display every time it is evaluated.
+
+import builtins as _builtins
+
+_EXC_BUILTINS = {k: v for k, v in vars(_builtins).items() if isinstance(v, type) and issubclass(v, BaseException)}
+_CONTAINER_MUTATORS = {
+    dict: {"setdefault", "update", "pop", "popitem", "clear", "__setitem__", "__delitem__"},
+    list: {"append", "extend", "insert", "pop", "remove", "clear", "sort", "reverse", "__setitem__", "__delitem__"},
+    set: {"add", "update", "discard", "remove", "pop", "clear", "difference_update", "intersection_update", "symmetric_difference_update"},
+}
+
+
+class PkgException(Exception):
+    """Stands for an instance of an exception class defined in the analysed package."""
+
+    def __init__(self, qn, args=()):
+        Exception.__init__(self, qn)
+        self.qn = qn
+        self.pargs = tuple(args)
+
+
+class _Return(Exception):
+    def __init__(self, value):
+        self.value = value
+
+
+class _Break(Exception):
+    pass
+
+
+class _Continue(Exception):
+    pass
+
+
+class StatefulEvaluator(Evaluator):
+    def __init__(self, prog, interp=None):
+        Evaluator.__init__(self, prog)
+        self.interp = interp
+
+    def _pure_method(self, recv, attr):
+        return Evaluator._pure_method(recv, attr) or attr in _CONTAINER_MUTATORS.get(type(recv), ())
+
+    def _name(self, e, module, env):
+        try:
+            return Evaluator._name(self, e, module, env)
+        except NormError:
+            # a module-level function of the package, used as a value or called
+            if self.interp is not None and chain(e) and not (isinstance(e, ast.Name) and getattr(e, "_local", False)):
+                root = e
+                while isinstance(root, ast.Attribute):
+                    root = root.value
+                q = qual_name(self.prog, getattr(root, "_mod", None) or module, e)
+                fi = self.prog.funcs.get(q) if q else None
+                if fi is not None and fi.parent is None and fi.cls is None:
+                    return self.interp.function(fi)
+            raise
+
+    def _ev(self, e, module, env):
+        if isinstance(e, ast.NamedExpr) and isinstance(e.target, ast.Name):
+            v = self._ev(e.value, module, env)
+            env[e.target.id] = v
+            return v
+        return Evaluator._ev(self, e, module, env)
+
+    def _call(self, e, module, env):
+        f = e.func
+        # a package function called by its (possibly imported / dotted) name
+        if self.interp is not None and chain(f) and not (isinstance(f, ast.Name) and (f.id in env or f.id in _BUILTINS)) \
+                and not (isinstance(f, ast.Attribute) and isinstance(f.value, ast.Name) and f.value.id in env):
+            q = qual_name(self.prog, module, f)
+            fi = self.prog.funcs.get(q) if q and q not in _EXTERNALS else None
+            if fi is not None and fi.parent is None and fi.cls is None:
+                if any(isinstance(a, ast.Starred) for a in e.args) or any(k.arg is None for k in e.keywords):
+                    raise NormError("star arguments")
+                fn = self.interp.function(fi)
+                return fn(*[self._ev(a, module, env) for a in e.args], **{k.arg: self._ev(k.value, module, env) for k in e.keywords})
+        return Evaluator._call(self, e, module, env)
+
+
+class InterpFunction:
+    """A function value of the interpreted program (callable from the Evaluator)."""
+
+    def __init__(self, interp, node, module, scopes, defaults, kwdefaults, name):
+        self.interp, self.node, self.module, self.scopes = interp, node, module, scopes
+        self.defaults, self.kwdefaults, self.name = defaults, kwdefaults, name
+        self.memo = None  # functools.cache / lru_cache: results keyed by the arguments
+
+    def __call__(self, *args, **kwargs):
+        if self.memo is not None:
+            try:
+                k = (args, tuple(sorted(kwargs.items())))
+                hash(k)
+            except TypeError as ex:
+                raise EvalRaised(ex)
+            if k not in self.memo:
+                self.memo[k] = self.interp.invoke(self, args, kwargs)
+            return self.memo[k]
+        return self.interp.invoke(self, args, kwargs)
+
+
+class Interp:
+    def __init__(self, prog, max_steps=400000, max_depth=40):
+        self.prog = prog
+        self.ev = StatefulEvaluator(prog, self)
+        self.steps = 0
+        self.max_steps = max_steps
+        self.depth = 0
+        self.max_depth = max_depth
+        self._module_functions = {}
+        self._handling = []
+
+    # -- function values -----------------------------------------------------------------------
+    def function(self, fi):
+        """The function object of a module-level package function (one per interpreter, like the module's own)."""
+        if fi.qn not in self._module_functions:
+            self._module_functions[fi.qn] = self._define(fi.node, fi.module, [])
+        return self._module_functions[fi.qn]
+
+    def _define(self, node, module, scopes):
+        if not isinstance(node, ast.FunctionDef):
+            raise NormError("%s is not a plain function" % getattr(node, "name", "?"))
+        a = node.args
+        if a.vararg or a.kwarg:
+            raise NormError("function %s takes star arguments" % node.name)
+        for x in walk_no_nested(node):
+            if isinstance(x, (ast.Yield, ast.YieldFrom, ast.Await)):
+                raise NormError("function %s is a generator / coroutine" % node.name)
+        env = self._flat(scopes)
+        defaults = [self.ev.ev(d, module, env) for d in a.defaults]
+        kwdefaults = {x.arg: self.ev.ev(d, module, env) for x, d in zip(a.kwonlyargs, a.kw_defaults) if d is not None}
+        fn = InterpFunction(self, node, module, list(scopes), defaults, kwdefaults, node.name)
+        for d in node.decorator_list:
+            dn = qual_name(self.prog, module, d.func if isinstance(d, ast.Call) else d)
+            if dn in ("functools.lru_cache", "functools.cache"):
+                fn.memo = {}
+            else:
+                raise NormError("decorator %s" % txt(d, 40))
+        return fn
+
+    @staticmethod
+    def _flat(scopes):
+        env = {}
+        for s in scopes:
+            env.update(s)
+        return env
+
+    def invoke(self, fn, args, kwargs):
+        a = fn.node.args
+        pos = [x.arg for x in a.posonlyargs + a.args]
+        kwonly = [x.arg for x in a.kwonlyargs]
+        if len(args) > len(pos):
+            raise EvalRaised(TypeError("%s() takes %d positional arguments" % (fn.name, len(pos))))
+        loc = dict(zip(pos, args))
+        for k, v in kwargs.items():
+            if k in loc or k not in pos + kwonly or k in [x.arg for x in a.posonlyargs]:
+                raise EvalRaised(TypeError("%s() got an unexpected keyword argument %r" % (fn.name, k)))
+            loc[k] = v
+        first_default = len(pos) - len(fn.defaults)
+        for i, n in enumerate(pos):
+            if n not in loc:
+                if i < first_default:
+                    raise EvalRaised(TypeError("%s() missing argument %r" % (fn.name, n)))
+                loc[n] = fn.defaults[i - first_default]
+        for n in kwonly:
+            if n not in loc:
+                if n not in fn.kwdefaults:
+                    raise EvalRaised(TypeError("%s() missing keyword argument %r" % (fn.name, n)))
+                loc[n] = fn.kwdefaults[n]
+        self.depth += 1
+        if self.depth > self.max_depth:
+            self.depth -= 1
+            raise NormError("call depth")
+        fr = {"scopes": fn.scopes + [loc], "loc": loc, "module": fn.module, "nonlocal": set(), "global": set()}
+        try:
+            self._block(fn.node.body, fr)
+        except _Return as r:
+            return r.value
+        finally:
+            self.depth -= 1
+        return None
+
+    # -- expressions --------------------------------------------------------------------------------
+    def _e(self, expr, fr):
+        env = self._flat(fr["scopes"])
+        walrus = [n.target.id for n in ast.walk(expr) if isinstance(n, ast.NamedExpr) and isinstance(n.target, ast.Name)]
+        try:
+            return self.ev.ev(expr, fr["module"], env)
+        finally:
+            for n in walrus:
+                if n in env:
+                    self._bind_name(n, env[n], fr)
+
+    def _bind_name(self, name, v, fr):
+        if name in fr["global"]:
+            raise NormError("assignment to the module global %s" % name)
+        if name in fr["nonlocal"]:
+            for s in reversed(fr["scopes"][:-1]):
+                if name in s:
+                    s[name] = v
+                    return
+            raise NormError("nonlocal %s not found" % name)
+        fr["loc"][name] = v
+
+    def _assign(self, t, v, fr):
+        if isinstance(t, ast.Name):
+            self._bind_name(t.id, v, fr)
+        elif isinstance(t, (ast.Tuple, ast.List)):
+            if any(isinstance(x, ast.Starred) for x in t.elts):
+                raise NormError("starred assignment target")
+            try:
+                vs = list(v)
+            except TypeError as ex:
+                raise EvalRaised(ex)
+            if len(vs) != len(t.elts):
+                raise EvalRaised(ValueError("unpack"))
+            for x, y in zip(t.elts, vs):
+                self._assign(x, y, fr)
+        elif isinstance(t, ast.Subscript):
+            obj = self._e(t.value, fr)
+            if type(obj) not in (dict, list):
+                raise NormError("item assignment on %s" % type(obj).__name__)
+            if isinstance(t.slice, ast.Slice):
+                raise NormError("slice assignment")
+            k = self._e(t.slice, fr)
+            try:
+                obj[k] = v
+            except Exception as ex:
+                raise EvalRaised(ex)
+        else:
+            raise NormError("assignment target %s" % type(t).__name__)
+
+    # -- exceptions ------------------------------------------------------------------------------------
+    def _exc_class(self, e, fr):
+        """('builtin', class) / ('pkg', qualified name) for an expression naming an exception class"""
+        c = chain(e)
+        if c in _EXC_BUILTINS and not (isinstance(e, ast.Name) and e.id in self._flat(fr["scopes"])):
+            return ("builtin", _EXC_BUILTINS[c])
+        q = qual_name(self.prog, fr["module"], e) if c else None
+        if q and q in self.prog.classes:
+            return ("pkg", q)
+        raise NormError("exception class %s" % txt(e, 40))
+
+    def _matches(self, t, exc, fr):
+        if t is None:
+            return True
+        if isinstance(t, ast.Tuple):
+            return any(self._matches(x, exc, fr) for x in t.elts)
+        kind, cls = self._exc_class(t, fr)
+        if isinstance(exc, PkgException):
+            return self.prog.is_subclass(exc.qn, cls if kind == "pkg" else cls.__name__)
+        return kind == "builtin" and isinstance(exc, cls)
+
+    # -- statements ---------------------------------------------------------------------------------------
+    def _block(self, stmts, fr):
+        for st in stmts:
+            self._stmt(st, fr)
+
+    def _stmt(self, n, fr):
+        self.steps += 1
+        if self.steps > self.max_steps:
+            raise NormError("interpretation too long")
+        if isinstance(n, ast.Expr):
+            if not isinstance(n.value, ast.Constant):
+                self._e(n.value, fr)
+        elif isinstance(n, ast.Assign):
+            v = self._e(n.value, fr)
+            for t in n.targets:
+                self._assign(t, v, fr)
+        elif isinstance(n, ast.AnnAssign):
+            if n.value is not None:
+                self._assign(n.target, self._e(n.value, fr), fr)
+        elif isinstance(n, ast.AugAssign):
+            load = copy.copy(n.target)
+            load.ctx = ast.Load()
+            v = self._e(ast.BinOp(left=load, op=n.op, right=n.value), fr)
+            self._assign(n.target, v, fr)
+        elif isinstance(n, ast.Return):
+            raise _Return(self._e(n.value, fr) if n.value is not None else None)
+        elif isinstance(n, ast.If):
+            self._block(n.body if self._e(n.test, fr) else n.orelse, fr)
+        elif isinstance(n, (ast.Pass, ast.Assert)):
+            pass
+        elif isinstance(n, ast.Nonlocal):
+            fr["nonlocal"] |= set(n.names)
+        elif isinstance(n, ast.Global):
+            fr["global"] |= set(n.names)
+        elif isinstance(n, ast.FunctionDef):
+            self._bind_name(n.name, self._define(n, fr["module"], fr["scopes"]), fr)
+        elif isinstance(n, ast.Raise):
+            if n.exc is None:
+                if not self._handling:
+                    raise EvalRaised(RuntimeError("No active exception to reraise"))
+                raise EvalRaised(self._handling[-1])
+            env = self._flat(fr["scopes"])
+            if isinstance(n.exc, ast.Name) and n.exc.id in env and isinstance(env[n.exc.id], BaseException):
+                raise EvalRaised(env[n.exc.id])
+            target = n.exc.func if isinstance(n.exc, ast.Call) else n.exc
+            kind, cls = self._exc_class(target, fr)
+            args = []
+            if isinstance(n.exc, ast.Call):
+                try:
+                    args = [self._e(a, fr) for a in n.exc.args]
+                except NormError:
+                    args = []
+            raise EvalRaised(PkgException(cls, args) if kind == "pkg" else cls(*args))
+        elif isinstance(n, ast.Try):
+            try:
+                try:
+                    self._block(n.body, fr)
+                except EvalRaised as er:
+                    for h in n.handlers:
+                        if self._matches(h.type, er.exc, fr):
+                            if h.name:
+                                self._bind_name(h.name, er.exc, fr)
+                            self._handling.append(er.exc)
+                            try:
+                                self._block(h.body, fr)
+                            finally:
+                                self._handling.pop()
+                            break
+                    else:
+                        raise
+                else:
+                    self._block(n.orelse, fr)
+            finally:
+                self._block(n.finalbody, fr)
+        elif isinstance(n, ast.For):
+            it = self._e(n.iter, fr)
+            try:
+                items = list(it)
+            except TypeError as ex:
+                raise EvalRaised(ex)
+            broke = False
+            for x in items:
+                self._assign(n.target, x, fr)
+                try:
+                    self._block(n.body, fr)
+                except _Break:
+                    broke = True
+                    break
+                except _Continue:
+                    continue
+            if not broke:
+                self._block(n.orelse, fr)
+        elif isinstance(n, ast.While):
+            broke = False
+            while self._e(n.test, fr):
+                self.steps += 1
+                if self.steps > self.max_steps:
+                    raise NormError("interpretation too long")
+                try:
+                    self._block(n.body, fr)
+                except _Break:
+                    broke = True
+                    break
+                except _Continue:
+                    continue
+            if not broke:
+                self._block(n.orelse, fr)
+        elif isinstance(n, ast.Break):
+            raise _Break()
+        elif isinstance(n, ast.Continue):
+            raise _Continue()
+        elif isinstance(n, ast.Delete):
+            for t in n.targets:
+                if isinstance(t, ast.Subscript) and not isinstance(t.slice, ast.Slice):
+                    obj = self._e(t.value, fr)
+                    if type(obj) not in (dict, list):
+                        raise NormError("item deletion on %s" % type(obj).__name__)
+                    k = self._e(t.slice, fr)
+                    try:
+                        del obj[k]
+                    except Exception as ex:
+                        raise EvalRaised(ex)
+                elif isinstance(t, ast.Name) and t.id in fr["loc"]:
+                    del fr["loc"][t.id]
+                else:
+                    raise NormError("deletion target")
+        else:
+            raise NormError("statement %s" % type(n).__name__)
